@@ -7,6 +7,7 @@ import (
 	"encoding/json"
 	"fmt"
 	"io"
+	"net"
 	"net/http"
 	"os"
 	"path/filepath"
@@ -36,9 +37,17 @@ type recordedReq struct {
 }
 
 type recorder struct {
-	mu   sync.Mutex
-	reqs []recordedReq
+	mu     sync.Mutex
+	reqs   []recordedReq
+	faults []int // outcome of the i-th request (cycled): 0 delivered, 1 status 500, 2 transport error, 3 status 404
 }
+
+// the text of a failed delivery names addresses and hosts, as the errors of
+// net/http do; none of it may turn up in a later report
+const (
+	c19FaultAddr = "10.9.8.7:3128"
+	c19FaultHost = "MARKproxyhost"
+)
 
 func (r *recorder) RoundTrip(req *http.Request) (*http.Response, error) {
 	var body []byte
@@ -47,7 +56,20 @@ func (r *recorder) RoundTrip(req *http.Request) (*http.Response, error) {
 	}
 	r.mu.Lock()
 	r.reqs = append(r.reqs, recordedReq{URL: req.URL.String(), Method: req.Method, Header: req.Header.Clone(), Body: body})
+	fault := 0
+	if len(r.faults) > 0 {
+		fault = r.faults[(len(r.reqs)-1)%len(r.faults)]
+	}
 	r.mu.Unlock()
+	switch fault {
+	case 1, 3:
+		code := map[int]int{1: 500, 3: 404}[fault]
+		return &http.Response{StatusCode: code, Status: fmt.Sprintf("%d served by %s", code, c19FaultHost), Body: io.NopCloser(strings.NewReader("error page of " + c19FaultHost + " at " + c19FaultAddr)),
+			Header: http.Header{"X-Served-By": []string{c19FaultHost}}, Request: req}, nil
+	case 2:
+		addr, _ := net.ResolveTCPAddr("tcp", c19FaultAddr)
+		return nil, &net.OpError{Op: "dial", Net: "tcp", Addr: addr, Err: fmt.Errorf("connect to %s: connection refused", c19FaultHost)}
+	}
 	return &http.Response{StatusCode: 200, Body: io.NopCloser(bytes.NewReader(nil)), Header: http.Header{}, Request: req}, nil
 }
 
@@ -63,9 +85,22 @@ type c19Case struct {
 	Marker     string `json:"marker"` // appears in the data dir path
 	WaitMs     int    `json:"wait_ms"`
 	Restart    bool   `json:"restart"` // a second collector over the same data dir
+	Faults     []int  `json:"faults,omitempty"` // outcomes of the deliveries, cycled (see recorder)
 }
 
 func genC19a(t *rapid.T) c19Case {
+	c := genC19aBase(t)
+	if rapid.Bool().Draw(t, "faulty") {
+		// deliveries that fail (status >= 400, transport error) between deliveries
+		// that get through: short intervals so that several reports are made
+		c.Faults = rapid.SliceOfN(rapid.SampledFrom([]int{0, 0, 1, 2, 2, 3}), 1, 5).Draw(t, "faults")
+		c.IntervalMs = rapid.SampledFrom([]int{1, 2}).Draw(t, "fastinterval")
+		c.WaitMs = rapid.SampledFrom([]int{5, 15, 30}).Draw(t, "longwait")
+	}
+	return c
+}
+
+func genC19aBase(t *rapid.T) c19Case {
 	return c19Case{
 		Enabled:    rapid.Bool().Draw(t, "enabled"),
 		IntervalMs: rapid.SampledFrom([]int{1, 2, 5, 1000, 86400000}).Draw(t, "interval"),
@@ -118,7 +153,7 @@ func checkPayload(rq recordedReq, markers []string) *vfutil.Failure {
 }
 
 func runC19a(c c19Case, o *vfutil.Obs) *vfutil.Failure {
-	rec := &recorder{}
+	rec := &recorder{faults: c.Faults}
 	saved := http.DefaultTransport
 	http.DefaultTransport = rec
 	defer func() { http.DefaultTransport = saved }()
@@ -179,9 +214,19 @@ func runC19a(c c19Case, o *vfutil.Obs) *vfutil.Failure {
 	if len(reqs) > 1 {
 		o.Label("several-reports")
 	}
-	for _, rq := range reqs {
-		if f := checkPayload(rq, []string{c.Marker, root}); f != nil {
+	failedBefore := false
+	for i, rq := range reqs {
+		if f := checkPayload(rq, []string{c.Marker, root, c19FaultAddr, "10.9.8.7", c19FaultHost}); f != nil {
+			if failedBefore {
+				f.Message += " (a report made after a failed delivery)"
+			}
 			return f
+		}
+		if failedBefore {
+			o.Label("report-after-a-failed-delivery")
+		}
+		if len(c.Faults) > 0 && c.Faults[i%len(c.Faults)] != 0 {
+			failedBefore = true
 		}
 	}
 	return nil
